@@ -239,7 +239,10 @@ class ShelxlRefine():
             print(sep_line)
             print('\nError: SHELXL terminated unexpectedly.')
             print('Check for errors in your SHELX input file!\n')
-            self.restore_shx_file()
+            # Only the backup of this very run is the previous res file. A backup file that an earlier run left behind
+            # holds an older model:
+            if backup_before:
+                self.restore_shx_file()
             sys.exit()
         # The listing file is only of interest after a successful run (and must not get in the way of the restore):
         lstfile = Path(f'{self.resfile_name}.lst')
